@@ -22,7 +22,7 @@ from harness.props import orchhist_common as oc
 from harness.props.c08 import measure_queries
 
 PROP = "C10"
-FLAGS = ["q_dry_keeps_storage", "q_lintfile_leaves_evidence", "q_consts_in_processing_order", "q_api_file_no_finalize"]
+FLAGS = ["q_dry_keeps_storage", "q_lintfile_leaves_evidence", "q_consts_in_processing_order", "q_ignore_parser_reused", "q_api_file_no_finalize"]
 HEADER = "From Coq Require Import NArith.\nFrom TL Require Import Lib.Base Model.OrchHist Model.OrchHistRun Actual.OrchHistActual.\n"
 # CLI command -> function holding its rule_id filter (Gen.cli_filters is keyed by function name)
 CMD_FN = {"dry": "_run_dry_lint", "stringly-typed": "_run_stringly_typed_lint", "nesting": "_run_nesting_lint",
@@ -78,7 +78,13 @@ def gen_cases(seed: int, n: int) -> list:
             else:
                 files = r.sample(code, r.randint(2, min(4, len(code)))) if len(code) >= 2 else list(code)
                 dirs = r.sample(sub, 1) if sub and r.random() < 0.5 else []
-        cases.append({"i": i, "proj": proj, "kind": kind, "via": via, "cmd": cmd, "files": files, "dirs": dirs, "as_dir": as_dir})
+        cfgv = None
+        if kind == "single" and r.random() < 0.45:
+            # per-file command through the real CLI with an explicit config file next to a differing project config
+            cfgv = r.choice(["same", "empty", "empty", "comments", "comments", "json_empty", "other_sections", "differs"])
+            via, cmd = "cli", r.choice(CFG_CMDS)
+            proj["config"].update(json.loads(json.dumps(ROOT_EXTRA)))
+        cases.append({"i": i, "proj": proj, "kind": kind, "via": via, "cmd": cmd, "files": files, "dirs": dirs, "as_dir": as_dir, "cfg": cfgv})
     return cases
 
 
@@ -89,6 +95,47 @@ def corpus_cases() -> list:
         c["i"] = "corpus:" + p.stem
         out.append(c)
     return out
+
+
+# explicit configuration files at the boundaries: what `--config X` / Linter(config_file=X) must mean when X says nothing
+# about the linter (the project root carries its own, differing, auto-discoverable .thailint.yaml)
+CFG_VARIANTS = {
+    "same": None,                                   # X has the text of the root config
+    "empty": ("explicit.yaml", ""),
+    "comments": ("explicit.yaml", "# CI baseline profile: deliberately empty, every linter with its built-in defaults\n"),
+    "json_empty": ("explicit.json", "{}\n"),
+    "other_sections": ("explicit.yaml", "srp:\n  max_methods: 30\n"),
+    "differs": ("explicit.yaml", "magic-numbers:\n  allowed_numbers: [0, 1, 50]\nnesting:\n  max_nesting_depth: 2\n"),
+}
+ROOT_EXTRA = {"magic-numbers": {"allowed_numbers": [-1, 0, 1, 2, 10, 50, 100, 1000, 4242]}, "nesting": {"max_nesting_depth": 9},
+              "improper-logging": {"enabled": False}}
+CFG_CMDS = ["magic-numbers", "magic-numbers", "nesting", "nesting", "improper-logging", "improper-logging", "lbyl", "srp", "method-property", "stateless-class"]
+
+
+def _explicit_config(case: dict, d: Path, root: Path) -> Path:
+    v = case.get("cfg")
+    if not v:
+        return root / oc.CONFIG_NAME
+    (d / "cfg").mkdir(exist_ok=True)
+    if CFG_VARIANTS[v] is None:
+        f = d / "cfg" / "explicit.yaml"
+        f.write_text((root / oc.CONFIG_NAME).read_text())
+    else:
+        f = d / "cfg" / CFG_VARIANTS[v][0]
+        f.write_text(CFG_VARIANTS[v][1])
+    return f
+
+
+def _linter(root: Path, cfg: Path):
+    """a Linter as a fresh process would build it, with the case's explicit configuration file"""
+    ensure_repo_on_path()
+    try:
+        from src.linter_config.ignore import clear_ignore_parser_cache
+        clear_ignore_parser_cache()
+    except ImportError:
+        pass
+    from src.api import Linter
+    return Linter(config_file=cfg, project_root=root)
 
 
 # ------------------------------------------------------------------ implementation
@@ -109,11 +156,12 @@ def run_impl(case: dict) -> dict:
             fs = {int(k): v for k, v in proj["fs0"].items()}
             oc.write_project(root, proj, fs)
             res["hard"], res["ign"] = oc.path_flags(root, proj)
+            cfg = _explicit_config(case, d, root)
             if case["kind"] == "union" and case["as_dir"] is not None:
                 dname = proj["dirs"][case["as_dir"]]
                 listing = oc.os_listing(root, dname, proj)
                 files, dirs = [p for p in listing if p in fs], []
-                lin = oc.fresh_linter(root)
+                lin = _linter(root, cfg)
                 res["cli"] = [_c6(v, root) for v in lin.lint(root / dname if dname else root)]
                 del lin
             else:
@@ -122,7 +170,9 @@ def run_impl(case: dict) -> dict:
                 targets = [root / paths[p] for p in files] + [(root / proj["dirs"][di]) if proj["dirs"][di] else root for di, _ in dirs]
                 if case["via"] == "cli":
                     s0 = oc.snapshot(root)
-                    rc, so, se = run_cli([case["cmd"], "--format", "json", *[str(t) for t in targets]], cwd=root, home=home, timeout=180)
+                    argv = ([ "--project-root", str(root)] if case.get("cfg") else []) + [case["cmd"], "--format", "json"] \
+                        + (["--config", str(cfg)] if case.get("cfg") else []) + [str(t) for t in targets]
+                    rc, so, se = run_cli(argv, cwd=root, home=home, timeout=180)
                     for x in oc.snapshot_diff(s0, oc.snapshot(root)):
                         res["side"].append(x)
                     vs = parse_json_violations(so)
@@ -133,23 +183,23 @@ def run_impl(case: dict) -> dict:
                     res["cli_rc"] = rc
                 else:
                     from src.cli.utils import execute_linting_on_paths
-                    orch = oc.fresh_linter(root).orchestrator
+                    orch = _linter(root, cfg).orchestrator
                     res["cli"] = [_c6(v, root) for v in execute_linting_on_paths(orch, targets, True, False)]
                     del orch
             res["files"], res["dirs"] = files, dirs
             for p in files:
-                lin = oc.fresh_linter(root)
+                lin = _linter(root, cfg)
                 res["api"].append([_c6(v, root) for v in lin.lint(str(root / paths[p]))])
                 del lin
             for di, _ in dirs:
-                lin = oc.fresh_linter(root)
+                lin = _linter(root, cfg)
                 res["api"].append([_c6(v, root) for v in lin.lint((root / proj["dirs"][di]) if proj["dirs"][di] else root)])
                 del lin
             if case["kind"] == "single" and case["cmd"]:
                 # the API's own rule filter, asked for the rule ids the run emits that the command's filter accepts
                 ids = sorted({v[0] for v in res["api"][0]} & {v[0] for v in res["cli"]}) or None
                 if ids:
-                    lin = oc.fresh_linter(root)
+                    lin = _linter(root, cfg)
                     t = (root / paths[files[0]]) if files else ((root / proj["dirs"][dirs[0][0]]) if proj["dirs"][dirs[0][0]] else root)
                     res["api_rules"] = {"rules": ids, "out": [_c6(v, root) for v in lin.lint(t, rules=ids)]}
                     del lin
@@ -157,11 +207,11 @@ def run_impl(case: dict) -> dict:
             for di, lst in dirs:
                 look |= {p for p in lst if oc.in_dir(proj["dirs"][di], paths[p])}
             for p in sorted(look):
-                lin = oc.fresh_linter(root)
+                lin = _linter(root, cfg)
                 res["pf"].append([p, fs.get(p), [_c6(v, root) for v in lin.orchestrator.lint_file(root / paths[p])]])
                 del lin
             if case["cmd"] and case["via"] == "cli":
-                res["emitted"] = attribute_rule_ids(root, proj, sorted(look))
+                res["emitted"] = attribute_rule_ids(root, proj, sorted(look), cfg)
             res["failures"] = drain_failures()
         except Exception as e:  # noqa: BLE001
             import traceback
@@ -169,12 +219,12 @@ def run_impl(case: dict) -> dict:
     return res
 
 
-def attribute_rule_ids(root: Path, proj: dict, pids: list) -> dict:
+def attribute_rule_ids(root: Path, proj: dict, pids: list, cfg: Path) -> dict:
     """package of src/linters -> rule ids its rule classes emit on these files (each rule object run on its own: check()
     on every file, then finalize())"""
     from src.orchestrator.core import FileLintContext
     from src.orchestrator.language_detector import detect_language
-    orch = oc.fresh_linter(root).orchestrator
+    orch = _linter(root, cfg).orchestrator
     orch._ensure_rules_discovered()
     out: dict = {}
     for rule in orch.registry.list_all():
@@ -197,24 +247,37 @@ def attribute_rule_ids(root: Path, proj: dict, pids: list) -> dict:
     return {k: sorted(v) for k, v in out.items()}
 
 
+def measure_proj(case: dict) -> dict:
+    """the project as the cross-file report measurements must see it: with the configuration the explicit file means"""
+    v = case.get("cfg")
+    if not v or CFG_VARIANTS[v] is None:
+        return case["proj"]
+    import yaml
+    proj = json.loads(json.dumps(case["proj"]))
+    name, text = CFG_VARIANTS[v]
+    proj["config"] = (json.loads(text) if name.endswith(".json") else yaml.safe_load(text)) or {}
+    proj["config"].setdefault("dry", {"enabled": False})
+    return proj
+
+
 def measure6(job):
     return [m if isinstance(m, dict) else [t[:6] for t in m] for m in measure_queries(job)]
 
 
 # ------------------------------------------------------------------ Coq side
 def _ctx(case, impl) -> str:
-    return f"{oc.coq_nat_list(impl['hard'])} {oc.coq_nat_list(impl['ign'])} {oc.coq_dirs(case['proj'])}"
+    return f"{oc.coq_nat_list(impl['hard'])} {oc.coq_ign(impl['ign'])} {case['proj']['paths'].index(oc.IGNORE_NAME)} {oc.coq_dirs(case['proj'])}"
 
 
 def _dirs(impl) -> str:
     return "[" + "; ".join(f"({di}, {oc.coq_nat_list(lst)})" for di, lst in impl["dirs"]) + "]"
 
 
-def phase_queries(cases, impls, wd: Path, per_shard=16):
+def phase_queries(cases, impls, wd: Path, per_shard=16, th=None):
     lines = [f"Eval vm_compute in (queries10 {_ctx(c, im)} orch_actual {oc.coq_fs(c['proj']['fs0'])} {oc.coq_nat_list(im['files'])} {_dirs(im)})."
              for c, im in zip(cases, impls)]
     shards = ["\n".join(lines[s:s + per_shard]) for s in range(0, len(lines), per_shard)]
-    flat = [x for o in coq.eval_shards(wd / "q", HEADER, shards) for x in o]
+    flat = [x for o in oc.eval_shards(th, wd / "q", HEADER, shards) for x in o]
     if len(flat) != len(cases):
         raise RuntimeError(f"expected {len(cases)} query lists, got {len(flat)}")
     res = []
@@ -228,7 +291,7 @@ def phase_queries(cases, impls, wd: Path, per_shard=16):
     return res
 
 
-def phase_judge(cases, impls, queries, measured, wd: Path, per_shard=10):
+def phase_judge(cases, impls, queries, measured, wd: Path, per_shard=10, th=None):
     lines = []
     for case, impl, qs, ms in zip(cases, impls, queries, measured):
         ids = oc.Ids()
@@ -262,7 +325,7 @@ def phase_judge(cases, impls, queries, measured, wd: Path, per_shard=10):
             f"{oc.coq_N_list(sorted(cross))} {oc.coq_nat_list(spec_rules)} orch_actual {oc.coq_fs(case['proj']['fs0'])} {coq.coq_string(fn)} {oc.coq_nat_list(impl['files'])} {_dirs(impl)} "
             f"{oc.coq_N_list(cli)} [{'; '.join(oc.coq_N_list(a) for a in api)}]).")
     shards = ["\n".join(lines[s:s + per_shard]) for s in range(0, len(lines), per_shard)]
-    flat = [x for o in coq.eval_shards(wd / "j", HEADER, shards) for x in o]
+    flat = [x for o in oc.eval_shards(th, wd / "j", HEADER, shards) for x in o]
     if len(flat) != len(cases):
         raise RuntimeError(f"expected {len(cases)} verdicts, got {len(flat)}")
     return flat
@@ -304,11 +367,15 @@ def run(tier: str, seed: int, replay: str | None = None) -> int:
     with scratch_dir("tv-c10-coq-") as wd:
         try:
             sc, si = [cases[i] for i in ok], [impls[i] for i in ok]
-            queries = phase_queries(sc, si, wd)
-            measured = pool_map(measure6, [(c["proj"], q) for c, q in zip(sc, queries)], procs=8)
-            verdicts = dict(zip(ok, phase_judge(sc, si, queries, measured, wd)))
+            th = oc.model_theories(chk, wd)
+            if th is False:
+                raise RuntimeError("no executable model")
+            queries = phase_queries(sc, si, wd, th=th)
+            measured = pool_map(measure6, [(measure_proj(c), q) for c, q in zip(sc, queries)], procs=8)
+            verdicts = dict(zip(ok, phase_judge(sc, si, queries, measured, wd, th=th)))
         except RuntimeError as e:
-            chk.broken.append(f"Model:evaluation of the entry-point model failed ({str(e)[:400]})")
+            if str(e) != "no executable model":
+                chk.broken.append(f"Model:evaluation of the entry-point model failed ({str(e)[:400]})")
     cands_all = None
     names = ["actual"] + [f"actual without {f}" for f in FLAGS] + ["ideal"]
     for i, (case, impl) in enumerate(zip(cases, impls)):
@@ -318,6 +385,7 @@ def run(tier: str, seed: int, replay: str | None = None) -> int:
         chk.dist("kind:" + case["kind"])
         chk.dist("via:" + case["via"])
         chk.dist("cmd:" + str(case["cmd"]))
+        chk.dist("explicit_config:" + str(case.get("cfg")))
         chk.dist(f"targets:{len(impl['files'])}f+{len(impl['dirs'])}d")
         chk.sample({"kind": case["kind"], "via": case["via"], "cmd": case["cmd"], "files": [case["proj"]["paths"][p] for p in impl["files"]],
                     "dirs": [case["proj"]["dirs"][d] for d, _ in impl["dirs"]], "cli_findings": len(impl["cli"]), "api_findings": [len(a) for a in impl["api"]]}, 4)
